@@ -691,6 +691,57 @@ func c07RaceA(id int) c07Case {
 	return c
 }
 
+// ---- (f) shared memory recovers after a fallback: the stream must stay on the socket ----------------------
+// The server's event loop is held inside handlePolling (blocking OnNewStream).  Stream 1: m0 (shm), shm
+// exhausted: m1 (socket fallback, unread), shm available again: m2, m3 small messages (and optionally Close).
+// Stream.inFallbackState is sticky, so m2, m3 follow m1 on the socket.  If the stream went back to the queue,
+// handlePolling / the drain in front of the fallback event would deliver them before m1.
+func c07Recover(id int, withClose bool) c07Case {
+	c := c07Case{ID: id, Kind: "directed-f-shm-recovers-after-fallback"}
+	gate := make(chan struct{})
+	entered := make(chan *Stream, 4)
+	var nNew int32
+	cb := &c07Listen{onNew: func(s *Stream) {
+		k := atomic.AddInt32(&nNew, 1)
+		entered <- s
+		if k == 1 {
+			<-gate
+		}
+	}}
+	client, server := c07Pair(0, cb)
+	s1, _ := client.OpenStream()
+	p1 := &c07Pipe{Stream: s1.id, Dir: 0, w: s1}
+	c.Pipes = []*c07Pipe{p1}
+	holder := &c07Holder{bm: client.bufferManager}
+	step := func(s string) { c.Ops = append(c.Ops, s) }
+	via, err := p1.write(32)
+	step(fmt.Sprintf("client: stream %d write m0 -> %s err=%v", s1.id, via, err))
+	select {
+	case p1.r = <-entered:
+		step("server: OnNewStream blocks: the event loop is inside handlePolling")
+	case <-time.After(8 * time.Second):
+		c.Notes = append(c.Notes, "OnNewStream was not called within 8 s")
+		close(gate)
+		c07Finish(&c, client, server)
+		return c
+	}
+	holder.hold()
+	via, err = p1.write(32)
+	step(fmt.Sprintf("client: shared memory exhausted; write m1 -> %s err=%v", via, err))
+	holder.release()
+	via, err = p1.write(8)
+	step(fmt.Sprintf("client: shared memory available again; write m2 -> %s err=%v", via, err))
+	via, err = p1.write(64)
+	step(fmt.Sprintf("client: write m3 -> %s err=%v", via, err))
+	if withClose {
+		p1.closeW()
+		step(fmt.Sprintf("client: Close -> notification via %s", p1.CloseVia))
+	}
+	close(gate)
+	c07Finish(&c, client, server)
+	return c
+}
+
 // ---- (d) a stream that lives entirely on the socket: fallback from its first message, closed through the
 // socket because the queue is full (the hypothesis of the partial theorem; expected in order) -----------
 func c07SocketOnly(id int) c07Case {
@@ -751,8 +802,19 @@ func c07SocketOnly(id int) c07Case {
 // The REAL wakeUpPeer of stream A's Flush is paused right after its successful markWorking (instrumented
 // session.go / queue.go under the controlled scheduler); everything else runs free.
 func c07RaceB(id int) c07Case {
-	c := c07Case{ID: id, Kind: "directed-b-fallback-overtakes-unpublished-wakeup"}
-	client, server := c07Pair(0, nil)
+	return c07Window(id, "directed-b-fallback-overtakes-unpublished-wakeup", false, 0)
+}
+
+// (g) the same window, but stream B's first data element is still in the (now full) queue when B closes: the
+// close notification travels through the socket (put fails) and reaches the peer before it has ever heard
+// of stream B.  The handler must empty the queue first (creating B, delivering b0) and only then look B up.
+func c07CloseEventFirst(id int) c07Case {
+	return c07Window(id, "directed-g-close-event-before-first-queued-data", true, 2)
+}
+
+func c07Window(id int, kind string, closeInstead bool, queueCap uint32) c07Case {
+	c := c07Case{ID: id, Kind: kind}
+	client, server := c07Pair(queueCap, nil)
 	sa, _ := client.OpenStream()
 	sb, _ := client.OpenStream()
 	pa := &c07Pipe{Stream: sa.id, Dir: 0, w: sa}
@@ -791,11 +853,18 @@ func c07RaceB(id int) c07Case {
 	step(fmt.Sprintf("T1: stream %d Flush(a0): element published, markWorking succeeded, PAUSED before the polling event is written", sa.id))
 	via, err := pb.write(16)
 	step(fmt.Sprintf("T2: stream %d Flush(b0) -> %s err=%v (markWorking fails: no event)", sb.id, via, err))
-	holder.hold()
-	via, err = pb.write(16)
-	holder.release()
-	step(fmt.Sprintf("T2: shared memory exhausted; stream %d Flush(b1) -> %s err=%v", sb.id, via, err))
-	// the fallback event creates stream B on the server
+	wait := 8 * time.Second
+	if closeInstead {
+		pb.closeW()
+		step(fmt.Sprintf("T2: the queue (capacity %d) is full; stream %d Close -> notification via %s", queueCap, sb.id, pb.CloseVia))
+		wait = 2 * time.Second
+	} else {
+		holder.hold()
+		via, err = pb.write(16)
+		holder.release()
+		step(fmt.Sprintf("T2: shared memory exhausted; stream %d Flush(b1) -> %s err=%v", sb.id, via, err))
+	}
+	// the socket item makes the peer empty the queue: streams A and B appear on the server
 	acc := make(chan *Stream, 2)
 	go func() {
 		for i := 0; i < 2; i++ {
@@ -816,8 +885,8 @@ func c07RaceB(id int) c07Case {
 	select {
 	case s := <-acc:
 		bind(s)
-	case <-time.After(8 * time.Second):
-		c.Notes = append(c.Notes, "server accepted no stream within 8 s")
+	case <-time.After(wait):
+		c.Notes = append(c.Notes, "server accepted no stream while T1 was paused")
 	}
 	if pb.r != nil {
 		pb.drain(300 * time.Millisecond)
@@ -825,11 +894,15 @@ func c07RaceB(id int) c07Case {
 	}
 	vsStep(t1) // T1 resumes (uncontrolled) and writes the polling event
 	step("T1: resumed: polling event written")
-	select {
-	case s := <-acc:
-		bind(s)
-	case <-time.After(8 * time.Second):
-		c.Notes = append(c.Notes, "second stream not accepted within 8 s")
+	for pa.r == nil || pb.r == nil {
+		select {
+		case s := <-acc:
+			bind(s)
+			continue
+		case <-time.After(8 * time.Second):
+			c.Notes = append(c.Notes, "a stream was not accepted within 8 s")
+		}
+		break
 	}
 	c07Finish(&c, client, server)
 	return c
@@ -963,6 +1036,12 @@ func TestVerif_C07(t *testing.T) {
 		id++
 	}
 	o.emit(c07SocketOnly(id))
+	id++
+	o.emit(c07Recover(id, false))
+	id++
+	o.emit(c07Recover(id, true))
+	id++
+	o.emit(c07CloseEventFirst(id))
 	id++
 	for k := 0; k < n; k++ {
 		if k%3 == 2 {
